@@ -1,3 +1,4 @@
+//# tags=C05
 // ---- codec specification, written from the property statements (C05/C20), not from /repo
 verus! {
 
